@@ -16,6 +16,8 @@ C08 applyadj [J…] [pr,pi,qr,qi]                   -> ok [4 numbers]           
 C08 adj     [J…]                                  -> ok [8 numbers]                 Jᴴ
 C08 retarder c s pc ps xc xs                      -> ok [8 numbers]  PhaseRetarder Jones matrix
 C08 polarizer c s                                 -> ok [8 numbers]
+C08 degrees tensor [J…] [a,b,c,d] | vector [E…] | scalar [er,ei]
+                                                  -> ok [dop², dolp², Q/I, U/I, V/I] | err zero-intensity
 ```
 -/
 namespace HcipyVerif.Driver.C08
@@ -41,7 +43,22 @@ def showJ2 (j : J2 Rat) : String :=
   showRatList [j.a11.re, j.a11.im, j.a12.re, j.a12.im, j.a21.re, j.a21.im, j.a22.re, j.a22.im]
 def showV2 (e : V2 Rat) : String := showRatList [e.x.re, e.x.im, e.y.re, e.y.im]
 
+def showDegrees (s : S4 Rat) : String :=
+  if s.i = 0 then "err zero-intensity" else "ok " ++ showRatList [s.dopSq, s.dolpSq, s.qn, s.un, s.vn]
+
 def step (st : St) : List String → St × String
+  | ["degrees", "tensor", j, s] =>
+    match (parseRatList? j).bind j2?, (parseRatList? s).bind s4? with
+    | some j, some s => (st, showDegrees (jonesStokes j s))
+    | _, _ => (st, "bad-op")
+  | ["degrees", "vector", e] =>
+    match (parseRatList? e).bind v2? with
+    | some e => (st, showDegrees (vecStokes e))
+    | _ => (st, "bad-op")
+  | ["degrees", "scalar", e] =>
+    match parseRatList? e with
+    | some [a, b] => (st, showDegrees (scalarStokes ⟨a, b⟩))
+    | _ => (st, "bad-op")
   | ["stokes", j, s] =>
     match (parseRatList? j).bind j2?, (parseRatList? s).bind s4? with
     | some j, some s => (st, "ok " ++ showS4 (jonesStokes j s))
